@@ -453,7 +453,7 @@ def _check_pty(case, col, watch):
 # ---------------------------------------------------------------------------
 # fdspawn / SocketSpawn
 
-FD_OPS = ['isalive', 'close', 'close', 'send', 'read', 'close-elsewhere', 'with-exc', 'grab-fds']
+FD_OPS = ['isalive', 'close', 'close', 'send', 'read', 'close-elsewhere', 'with-exc', 'grab-fds', 'peer-eof']
 
 
 @st.composite
@@ -476,12 +476,15 @@ def check_fdsock(case, col=None):
         fd = a.fileno()
     released = False
     closed_elsewhere = False
+    peer_gone = [False]
     decoys = None
     feats = set()
     n_life = 0
     try:
         for i, op in enumerate(case['ops']):
             where = 'step %d (%s) of %r on %s' % (i, op, case['ops'][:i + 1], case['transport'])
+            if peer_gone[0] and op in ('send', 'read'):
+                continue            # (nobody is listening any more)
             try:
                 with guard(where, allow=(EOF, TIMEOUT, ExceptionPexpect, OSError, ValueError)):
                     if op == 'isalive':
@@ -526,6 +529,15 @@ def check_fdsock(case, col=None):
                             b.send(b'yo')
                             if sp.read_nonblocking(10, 1) != b'yo':
                                 raise Violation('read-wrong', '%s' % where)
+                    elif op == 'peer-eof':
+                        # the peer hangs up and the object reads to EOF (it is still open and still has to be closed)
+                        if not released and not closed_elsewhere and not peer_gone[0]:
+                            b.close()
+                            peer_gone[0] = True
+                            try:
+                                sp.expect(EOF, timeout=1)
+                            except TIMEOUT:
+                                raise Violation('read-wrong', '%s: TIMEOUT although the peer closed' % where)
                     elif op == 'close-elsewhere':
                         if not released and not closed_elsewhere:
                             if case['transport'] == 'fd':
